@@ -886,6 +886,8 @@ Definition goodc (v : av) : Prop :=
   | VT | VF | VN | VInf => True
   | VS s => nonul s /\ nodot s
   | VSym s => nonul s /\ sym_plain s = false /\ nodot s
+  | VM a b c d => good_midi a b c d
+  | VR v => good_rgba v
   | _ => False
   end.
 
@@ -1008,6 +1010,16 @@ Proof.
     repeat (apply Forall_app; split); try assumption; try (repeat constructor; lia).
 Qed.
 
+Lemma hexdig_ne46 x : hexdig (x mod 16) <> 46.
+Proof. unfold hexdig. pose proof (Z.mod_pos_bound x 16 ltac:(lia)). destruct (x mod 16 <? 10); lia. Qed.
+
+Lemma hex2_nodot b : nodot (hex2 b).
+Proof.
+  unfold hex2, hexdig. repeat constructor.
+  - destruct (b / 16 mod 16 <? 10) eqn:E; pose proof (Z.mod_pos_bound (b / 16) 16 ltac:(lia)); lia.
+  - destruct (b mod 16 <? 10) eqn:E; pose proof (Z.mod_pos_bound b 16 ltac:(lia)); lia.
+Qed.
+
 Section GoodcTok.
 Variables dec2f dec2d : list Z -> Z.
 
@@ -1033,6 +1045,8 @@ Proof.
     pose proof (print_chars_nodot (linelength o) s (cols + 1) Hnd) as Hb.
     destruct (print_chars false (linelength o) s (cols + 1)) as [body c1]. inversion Hp; subst. cbn [fst] in Hb.
     constructor; [lia|]. apply Forall_app. split; [assumption|repeat constructor; lia].
+  - inversion Hp; subst. repeat constructor; try lia; apply hexdig_ne46.
+  - inversion Hp; subst. repeat constructor; try lia; apply hexdig_ne46.
 Qed.
 End GoodcTok.
 
